@@ -65,7 +65,7 @@ func (w *w1) cleans(v ssa.Value, d int) func(ssa.Instruction) bool {
 		if !ok {
 			return false
 		}
-		cal := call.Call.StaticCallee()
+		cal := staticCallee(call)
 		if cal == nil {
 			return false
 		}
@@ -164,7 +164,7 @@ func (w *w1) dirtyEvents(fn *ssa.Function, v ssa.Value, d int) []dirtyEvent {
 					out = append(out, dirtyEvent{in: in, what: "store to " + fl})
 				}
 			case *ssa.Call:
-				cal := x.Call.StaticCallee()
+				cal := staticCallee(x)
 				if cal == nil || !IsRepoFunc(cal) || cal == V.WriteInode {
 					continue
 				}
@@ -854,11 +854,11 @@ func ruleW3(c *Ctx, id string) {
 		for _, call := range P.CallsIn(V.WriteInode, funcIs(V.OverWrite)) {
 			sz, _ := constInt(argN(call, 1))
 			encOK := false
-			if dc, ok := stripConv(argN(call, 2)).(*ssa.Call); ok && dc.Call.StaticCallee() == V.Encode && recvOf(dc) == ssa.Value(V.WriteInode.Params[0]) {
+			if dc, ok := stripConv(argN(call, 2)).(*ssa.Call); ok && staticCallee(dc) == V.Encode && recvOf(dc) == ssa.Value(V.WriteInode.Params[0]) {
 				encOK = true
 			}
 			addrOK := false
-			if ac, ok := stripConv(argN(call, 0)).(*ssa.Call); ok && ac.Call.StaticCallee() != nil && ac.Call.StaticCallee().Name() == "Inum2Addr" {
+			if ac, ok := stripConv(argN(call, 0)).(*ssa.Call); ok && staticCallee(ac) != nil && staticCallee(ac).Name() == "Inum2Addr" {
 				n, fl, base, _ := loadedField(argN(ac, 0))
 				addrOK = n == V.Inode && fl == "Inum" && base == ssa.Value(V.WriteInode.Params[0])
 			}
@@ -870,7 +870,7 @@ func ruleW3(c *Ctx, id string) {
 		for _, call := range P.CallsIn(V.GetInodeLocked, funcIs(V.ReadBuf, V.LogLoad)) {
 			sz, _ := constInt(argN(call, 1))
 			addrOK := false
-			if ac, ok := stripConv(argN(call, 0)).(*ssa.Call); ok && ac.Call.StaticCallee() != nil && ac.Call.StaticCallee().Name() == "Inum2Addr" {
+			if ac, ok := stripConv(argN(call, 0)).(*ssa.Call); ok && staticCallee(ac) != nil && staticCallee(ac).Name() == "Inum2Addr" {
 				addrOK = stripConv(argN(ac, 0)) == ssa.Value(V.GetInodeLocked.Params[1])
 			}
 			R.Check(sz == inodesz*8 && addrOK, id, "fstxn.GetInodeLocked|reads the slot WriteInode writes", P.Pos(call.Pos()), "the inode is read through the journal from Inum2Addr(inum), INODESZ*8 bits", "same address function and size", "inode read from a different slot/size than it is written to")
@@ -934,7 +934,7 @@ func (w *w1) bmapHelperCall(in ssa.Instruction) bool {
 	if !ok {
 		return false
 	}
-	h := call.Call.StaticCallee()
+	h := staticCallee(call)
 	if h == nil || !(isPrivateHelper(h) || h.Parent() != nil) || h.Blocks == nil {
 		return false
 	}
